@@ -288,6 +288,11 @@ pub enum Stmt {
     ChainAssign(u8, Expr),
     /// `i<v> = match <e>` with a literal arm, a guarded arm and an else arm
     MatchAssign(u8, Expr, Expr),
+    /// a call at the end of a multi-line access chain, on a line of its own:
+    /// `i<v> = QM` / [`  .sub`] / `  .'f <k>'(<arg>)` or `  .g<k>(<arg>)` (form bit 0: identifier
+    /// key instead of a quoted string key, bit 1: one more access line in between). The call is
+    /// an ordinary Koto call whose call site is the LAST line of the statement.
+    KeyChainCall(u8, usize, Expr, u32, u8),
     /// `i<v> = C_APPLY <arg>, |x|` + a multi-statement function literal that calls f<func>:
     /// every frame on the path is an ordinary Koto call frame
     AssignLambdaCall(u8, usize, Expr, u32),
@@ -658,6 +663,15 @@ impl<'a> Gen<'a> {
                     }
                     let func = *self.r.pick(&funcs);
                     self.p.n_calls += 1;
+                    if self.r.chance(1, 2) {
+                        return Stmt::KeyChainCall(
+                            self.r.below(3) as u8,
+                            func,
+                            self.small_int_expr(c),
+                            self.p.n_calls,
+                            self.r.below(4) as u8,
+                        );
+                    }
                     Stmt::AssignLambdaCall(
                         self.r.below(3) as u8,
                         func,
@@ -1156,6 +1170,23 @@ impl Printer {
                 let e2 = self.expr(e2);
                 self.line(indent + 1, &format!("else {e2}"));
             }
+            Stmt::KeyChainCall(v, func, arg, site, form) => {
+                self.line(indent, &format!("i{v} = QM"));
+                if form & 2 != 0 {
+                    self.line(indent + 1, ".sub");
+                }
+                let a = self.expr(arg);
+                let ix = *site as usize;
+                if self.call_line.len() <= ix + 1 {
+                    self.call_line.resize(ix + 2, 0);
+                }
+                self.call_line[ix] = self.cur_line();
+                if form & 1 != 0 {
+                    self.line(indent + 1, &format!(".g{func}({a})"));
+                } else {
+                    self.line(indent + 1, &format!(".'f {func}'({a})"));
+                }
+            }
             Stmt::AssignLambdaCall(v, func, arg, site) => {
                 let a = self.expr(arg);
                 let ix = *site as usize;
@@ -1323,6 +1354,18 @@ pub fn print(p: &Program, opts: &PrintOpts) -> Printed {
         pr.line(0, "export OBJ =");
         for i in 0..p.funcs.len() {
             pr.line(1, &format!("m{i}: |x| f{i}(x)"));
+        }
+    }
+    if !p.funcs.is_empty() {
+        pr.line(0, "export QM =");
+        for i in 0..p.funcs.len() {
+            pr.line(1, &format!("'f {i}': f{i}"));
+            pr.line(1, &format!("g{i}: f{i}"));
+        }
+        pr.line(1, "sub:");
+        for i in 0..p.funcs.len() {
+            pr.line(2, &format!("'f {i}': f{i}"));
+            pr.line(2, &format!("g{i}: f{i}"));
         }
     }
     // main is rendered into a separate buffer first so that the set of used chains is known
